@@ -364,9 +364,9 @@ def _omitted_options(ctx, P):
                     n += 1
                     want_b = None if "boundary" in over else Sym("USER_BOUNDARY")
                     want_f = None if "fill_value" in over else Sym("USER_FILL")
-                    if not same_option(P, "boundary", e[2], want_b):
+                    if not same_option(P, "boundary", e[2], want_b, ("AX", "AY")):
                         bad = bad or f"pad() receives boundary={e[2]!r}; the caller gave {'none' if want_b is None else 'one'}"
-                    if not same_option(P, "fill_value", e[3], want_f):
+                    if not same_option(P, "fill_value", e[3], want_f, ("AX", "AY")):
                         bad = bad or f"pad() receives fill_value={e[3]!r}; the caller gave {'none: the Grid-level value must apply' if want_f is None else 'one: it is dropped'}"
             if not n:
                 ctx.unknown("R11.5", inst, "no pad() call seen")
@@ -431,7 +431,7 @@ def _r11_345(ctx, P):
                 if boundary != Sym("USER_BOUNDARY") or fill != Sym("USER_FILL"):
                     from .c02 import same_option
 
-                    if not (same_option(P, "boundary", boundary, Sym("USER_BOUNDARY")) and same_option(P, "fill_value", fill, Sym("USER_FILL"))):
+                    if not (same_option(P, "boundary", boundary, Sym("USER_BOUNDARY"), ("AX", "AY")) and same_option(P, "fill_value", fill, Sym("USER_FILL"), ("AX", "AY"))):
                         probs.setdefault("R11.5", "the caller's boundary / fill_value do not reach pad()")
                 if grid_ is not g:
                     probs.setdefault("R11.5", "pad() is not given the grid")
